@@ -46,19 +46,22 @@ type scenario struct {
 	queueSize int
 	maxDev    int // bound on deviation events (cancel, timer, finish err) taken while a plain event is enabled; -1: none
 	thorough  bool
+	heavyMax  int64 // heavy permits (0: the default of 1)
 }
 
 var scenarios = []scenario{
-	{"HH-q1", "HH", 1, -1, false},
-	{"HHN-q1", "HHN", 1, -1, false},
-	{"HHH-q1", "HHH", 1, -1, false},
-	{"NN-q1", "NN", 1, -1, false},
-	{"HHHH-q1-dev2", "HHHH", 1, 2, false}, // 4 heavy callers are needed to fill a queue of 1 (running + held by the worker + queued)
-	{"HHH-q2", "HHH", 2, -1, true},
-	{"HHHH-q1", "HHHH", 1, -1, true},
-	{"HHHH-q2", "HHHH", 2, -1, true},
-	{"HHNN-q1-dev3", "HHNN", 1, 3, true}, // unbounded: 6.3e6 executions (measured once, same two keys only)
-	{"HHHN-q2-dev3", "HHHN", 2, 3, true},
+	{"HH-q1", "HH", 1, -1, false, 0},
+	{"HHN-q1", "HHN", 1, -1, false, 0},
+	{"HHH-q1", "HHH", 1, -1, false, 0},
+	{"NN-q1", "NN", 1, -1, false, 0},
+	{"HHH-q1-2permits-dev2", "HHH", 1, 2, false, 2}, // two heavy permits: one held by the queue worker, the other free again
+	{"HHHH-q1-dev2", "HHHH", 1, 2, false, 0},        // 4 heavy callers are needed to fill a queue of 1 (running + held by the worker + queued)
+	{"HHH-q2", "HHH", 2, -1, true, 0},
+	{"HHHH-q1", "HHHH", 1, -1, true, 0},
+	{"HHHH-q2", "HHHH", 2, -1, true, 0},
+	{"HHNN-q1-dev3", "HHNN", 1, 3, true, 0}, // unbounded: 6.3e6 executions (measured once, same two keys only)
+	{"HHHN-q2-dev3", "HHHN", 2, 3, true, 0},
+	{"HHH-q1-2permits", "HHH", 1, -1, true, 2},
 }
 
 type caller struct {
@@ -86,12 +89,13 @@ type caller struct {
 }
 
 type system struct {
-	sc      scenario
-	rl      *rpcprovider.ResourceLimiter
-	mu      sync.Mutex
-	seq     int
-	callers []*caller
-	closed  bool
+	sc       scenario
+	rl       *rpcprovider.ResourceLimiter
+	mu       sync.Mutex
+	seq      int
+	callers  []*caller
+	closed   bool
+	heavyMax int64
 }
 
 var (
@@ -104,7 +108,11 @@ func makeSystem(sc scenario) events.System {
 	clock.Reset()
 	counter++
 	s := &system{sc: sc}
-	s.rl = rpcprovider.NewResourceLimiter(true, fmt.Sprintf("verif-c41-%d", counter), cuThreshold, heavyMax, sc.queueSize, normalMax)
+	s.heavyMax = int64(heavyMax)
+	if sc.heavyMax > 0 {
+		s.heavyMax = sc.heavyMax
+	}
+	s.rl = rpcprovider.NewResourceLimiter(true, fmt.Sprintf("verif-c41-%d", counter), cuThreshold, s.heavyMax, sc.queueSize, normalMax)
 	for i, k := range sc.kinds {
 		c := &caller{idx: i, heavy: k == 'H', gate: make(chan error, 1), bodyErr: fmt.Errorf("body error of request %d", i)}
 		// the caller's context cancels the limiter's WithTimeout child synchronously, as a standard context does
@@ -284,8 +292,8 @@ func (s *system) Check(report events.Reporter) {
 			}
 		}
 	}
-	if runH > heavyMax {
-		report("heavy-limit-exceeded", fmt.Sprintf("%d heavy requests run at once, limit %d", runH, heavyMax))
+	if int64(runH) > s.heavyMax {
+		report("heavy-limit-exceeded", fmt.Sprintf("%d heavy requests run at once, limit %d", runH, s.heavyMax))
 	}
 	if runN > normalMax {
 		report("normal-limit-exceeded", fmt.Sprintf("%d normal requests run at once, limit %d", runN, normalMax))
